@@ -9,6 +9,7 @@ import (
 	"fmt"
 	"io"
 	"strings"
+	"unicode/utf8"
 
 	mxj "github.com/clbanning/mxj/v2"
 )
@@ -94,6 +95,9 @@ func tokenStream(b []byte) (string, bool) {
 
 // xrt deccfg strconv tokens fin esc goEmpty doc indentprefix indent
 func c02Exec(op string) string {
+	if strings.HasPrefix(op, "xtok ") {
+		return xtokExec(op)
+	}
 	c, _ := newCur(op)
 	o := c.decOpt()
 	c.val()
@@ -174,10 +178,16 @@ func c02Exec(op string) string {
 			}
 		}
 	}
-	return "ok " + encStr(string(x)) + " | " + enc(m1) + " | " + strings.Join(notes, "; ")
+	// 4th field: what the real tokenizer makes of the compact output (compared with the model
+	// tokenizer's tokens of the model's bytes: theorem C02_tok_law says they are the tree's tokens)
+	return "ok " + encStr(string(x)) + " | " + enc(m1) + " | " + strings.Join(notes, "; ") + " | " + refTokens(x)
 }
 
 func c02Describe(op string) string {
+	if strings.HasPrefix(op, "xtok ") {
+		c, _ := newCur(op)
+		return fmt.Sprintf("tokenizer model vs encoding/xml on doc=%q", c.str())
+	}
 	c, _ := newCur(op)
 	o := c.decOpt()
 	c.val()
@@ -190,6 +200,9 @@ func c02Describe(op string) string {
 }
 
 func c02Judge(op, impl, model string) Verdict {
+	if strings.HasPrefix(op, "xtok ") {
+		return xtokJudge(op, impl, model)
+	}
 	v := Verdict{Tags: []string{"xrt"}}
 	if strings.HasPrefix(model, "skip-") {
 		v.Skipped, v.CorrOK = true, true
@@ -208,6 +221,24 @@ func c02Judge(op, impl, model string) Verdict {
 	}
 	v.CorrOK = len(mp) >= 2 && len(ip) >= 2 && ip[0] == mp[0] && "ok "+mp[1] == "ok "+ip[1]
 	v.Nontrivial = true
+	// the model tokenizer on the (identical) compact bytes against the real tokenizer
+	if v.CorrOK && len(ip) > 3 {
+		switch {
+		case strings.HasPrefix(ip[3], "tokskip"):
+			v.Tags = append(v.Tags, "xrt:tok-skip")
+		case len(mp) > 2:
+			v.Tags = append(v.Tags, "xrt:tok")
+			if ip[3] == "tok err" {
+				v.Tags = append(v.Tags, "xrt:tok-err")
+			}
+			if ip[3] != mp[2] {
+				v.CorrOK = false
+				v.Tags = append(v.Tags, "xrt:tok-differs")
+			}
+		default:
+			v.CorrOK = false
+		}
+	}
 	if len(ip) > 2 && ip[2] != "" {
 		v.OracleFail = ip[2]
 		v.Sig = "xrt:" + strings.Join(strings.Fields(ip[2])[:2], "-")
@@ -259,6 +290,209 @@ func c02Gen(r *Rng, n int) []string {
 			line += fmt.Sprintf(" ;both %d", both)
 		}
 		ops = append(ops, line)
+		// the same document (varied surface syntax: both quote styles, references, CDATA,
+		// comments, PIs, prefixes) through the tokenizer model alone; one in five damaged
+		if len(ops) < n && r.P(30) {
+			d := []byte(doc)
+			if r.P(20) && len(d) > 0 {
+				const junk = "<>&\"'/= ]-?!;#x\r"
+				for k := 1 + r.Intn(2); k > 0; k-- {
+					d[r.Intn(len(d))] = junk[r.Intn(len(junk))]
+				}
+			}
+			ops = append(ops, "xtok "+encStr(string(d)))
+		}
+	}
+	return ops
+}
+
+// ---- the tokenizer model (lean/Mxj/Model/Tokenizer.lean; C02_tok_law, C02_tok_law_raw) against
+// encoding/xml.  Canonical token syntax = the one tokensOf uses to hand real tokens to the model.
+
+// allTokens: every token until EOF (raw: RawToken, else Token - Strict as xml.NewDecoder and the
+// library leave it).
+func allTokens(doc []byte, raw bool) ([]xml.Token, error) {
+	d := xml.NewDecoder(bytes.NewReader(doc))
+	var out []xml.Token
+	for {
+		var t xml.Token
+		var err error
+		if raw {
+			t, err = d.RawToken()
+		} else {
+			t, err = d.Token()
+		}
+		if err == io.EOF {
+			return out, nil
+		}
+		if err != nil {
+			return out, err
+		}
+		out = append(out, xml.CopyToken(t))
+	}
+}
+
+func encTokens(toks []xml.Token) string {
+	var sb strings.Builder
+	sb.WriteString("[ ")
+	for _, t := range toks {
+		switch x := t.(type) {
+		case xml.StartElement:
+			var as []XAttr
+			for _, a := range x.Attr {
+				as = append(as, XAttr{Space: a.Name.Space, Name: a.Name.Local, Value: a.Value})
+			}
+			sb.WriteString("[ " + encStr("S") + " " + encStr(x.Name.Space) + " " + encStr(x.Name.Local) + " " + encAttrs(as) + " ] ")
+		case xml.EndElement:
+			sb.WriteString("[ " + encStr("E") + " " + encStr(x.Name.Space) + " " + encStr(x.Name.Local) + " ] ")
+		case xml.CharData:
+			sb.WriteString("[ " + encStr("T") + " " + encStr(string(x)) + " ] ")
+		case xml.Comment:
+			sb.WriteString("[ " + encStr("C") + " " + encStr(string(x)) + " ] ")
+		case xml.ProcInst:
+			sb.WriteString("[ " + encStr("P") + " " + encStr(x.Target) + " " + encStr(string(x.Inst)) + " ] ")
+		case xml.Directive:
+			sb.WriteString("[ " + encStr("D") + " " + encStr(string(x)) + " ] ")
+		}
+	}
+	sb.WriteString("]")
+	return sb.String()
+}
+
+func isASCII(s string) bool {
+	for i := 0; i < len(s); i++ {
+		if s[i] >= 0x80 {
+			return false
+		}
+	}
+	return true
+}
+
+// tokModelSupports is the explicit predicate "inside the subset the tokenizer model claims":
+// valid UTF-8, no directive (<!DOCTYPE ...>), no xml declaration the decoder rejects for its
+// version/encoding, ASCII names.  (raw = the RawToken stream, rerr its error.)
+func tokModelSupports(doc []byte, raw []xml.Token, rerr error) (bool, string) {
+	if !utf8.Valid(doc) {
+		return false, "invalid-utf8"
+	}
+	for i := 0; i+1 < len(doc); i++ {
+		if doc[i] == '<' && doc[i+1] == '!' && !bytes.HasPrefix(doc[i+2:], []byte("--")) && !bytes.HasPrefix(doc[i+2:], []byte("[CDATA[")) {
+			return false, "directive"
+		}
+	}
+	if rerr != nil && (strings.Contains(rerr.Error(), "unsupported version") || strings.Contains(rerr.Error(), "xml: encoding")) {
+		return false, "xml-declaration"
+	}
+	for _, t := range raw {
+		switch x := t.(type) {
+		case xml.Directive:
+			return false, "directive"
+		case xml.StartElement:
+			if !isASCII(x.Name.Space + x.Name.Local) {
+				return false, "non-ascii-name"
+			}
+			for _, a := range x.Attr {
+				if !isASCII(a.Name.Space + a.Name.Local) {
+					return false, "non-ascii-name"
+				}
+			}
+		case xml.EndElement:
+			if !isASCII(x.Name.Space + x.Name.Local) {
+				return false, "non-ascii-name"
+			}
+		case xml.ProcInst:
+			if !isASCII(x.Target) {
+				return false, "non-ascii-name"
+			}
+		}
+	}
+	return true, ""
+}
+
+// nsFree: no prefix and no xmlns attribute anywhere - Token() then translates nothing.
+func nsFree(raw []xml.Token) bool {
+	for _, t := range raw {
+		switch x := t.(type) {
+		case xml.StartElement:
+			if x.Name.Space != "" {
+				return false
+			}
+			for _, a := range x.Attr {
+				if a.Name.Space != "" || a.Name.Local == "xmlns" {
+					return false
+				}
+			}
+		case xml.EndElement:
+			if x.Name.Space != "" {
+				return false
+			}
+		}
+	}
+	return true
+}
+
+// refTokens: what the model tokenizer has to reproduce for these bytes - "tok <tokens>",
+// "tok err" or "tokskip <why>".  Reference = Decoder.Token() when the document uses no name-space
+// syntax (Token then differs from RawToken only by checking the nesting, which the model does
+// not; if that check fails the RawToken stream is the reference), else Decoder.RawToken():
+// the model hands over prefixes untranslated, as RawToken does.
+func refTokens(doc []byte) string {
+	raw, rerr := allTokens(doc, true)
+	if ok, why := tokModelSupports(doc, raw, rerr); !ok {
+		return "tokskip " + why
+	}
+	if rerr != nil {
+		return "tok err"
+	}
+	ref := raw
+	if nsFree(raw) {
+		if tk, terr := allTokens(doc, false); terr == nil {
+			ref = tk
+		}
+	}
+	return "tok " + encTokens(ref)
+}
+
+// xtok doc
+func xtokExec(op string) string {
+	c, _ := newCur(op)
+	doc := c.str()
+	if c.err != nil {
+		return "bad-op " + c.err.Error()
+	}
+	return refTokens([]byte(doc))
+}
+
+func xtokJudge(op, impl, model string) Verdict {
+	v := Verdict{Tags: []string{"xtok"}}
+	if strings.HasPrefix(model, "skip-") || strings.HasPrefix(impl, "tokskip") {
+		v.Skipped, v.CorrOK = true, true
+		v.Tags = append(v.Tags, "xtok:skip")
+		return v
+	}
+	v.CorrOK = impl == model
+	if impl == "tok err" {
+		v.Tags = append(v.Tags, "xtok:err")
+	} else {
+		v.Nontrivial = true
+	}
+	return v
+}
+
+// fixed documents for the tokenizer model: every construct it claims, and strict-mode errors
+func c02Fixed() []string {
+	docs := []string{
+		`<a x=" 1 "><b>t&lt;u</b><b/><c k='v"'>w<d/></c></a>`,
+		"<?xml version=\"1.0\" encoding=\"UTF-8\"?>\n<!-- c - d --><p:a xmlns:p=\"urn:p\" p:k = \"v\"\n><![CDATA[x<&]]>]]&gt;\r\ny\rz&#13;\n</p:a >",
+		`<a></a><b/>tail`, `<a k="&#x41;&#66;&amp;&apos;&quot;">&#x10FFFF;</a>`,
+		`<a>]]></a>`, `<a k="]]>"/>`, `<a k="<"/>`, `<a k=v/>`, `<a k/>`, `<a>&x;</a>`, `<a>&#0;</a>`, `<a>&#xD800;</a>`,
+		`<a:b:c/>`, `<:a/>`, `<a:/>`, `<1a/>`, `<a/ >`, `</a/>`, `<a><!-- -- --></a>`, `<!--->`, `<!---->`, `<?p?>`, `<? p?>`,
+		`<![CDATA[]]]>`, `<![CDATA[a]]`, `<a b="1"c="2"/>`, "<a\tb\r=\n'1'/>", "<a>\x01</a>", `<a`, `<a k="v`, `x`, ``,
+		`<a xmlns="urn:d"><b/></a>`, `<a><b></a></b>`, `<a>`,
+	}
+	var ops []string
+	for _, d := range docs {
+		ops = append(ops, "xtok "+encStr(d))
 	}
 	return ops
 }
@@ -266,11 +500,12 @@ func c02Gen(r *Rng, n int) []string {
 func init() {
 	register(&Prop{
 		ID:        "C02",
-		Rule:      "documents of the C01 generator (one text run per element) decoded under symmetric option combinations (non-empty attribute prefix, key prefixes, lower/snake, as-map, keep-spaces, decoder-side or encoder-side escaping, float/bool casting, Go empty-element syntax), re-encoded compactly and indented (prefix/indent strings of blanks and tabs) and decoded again; non-trivial = the document decoded; distinct = distinct op lines",
+		Rule:      "documents of the C01 generator (one text run per element) decoded under symmetric option combinations (non-empty attribute prefix, key prefixes, lower/snake, as-map, keep-spaces, decoder-side or encoder-side escaping, float/bool casting, Go empty-element syntax), re-encoded compactly and indented (prefix/indent strings of blanks and tabs) and decoded again; the compact output, and three in ten of the generated documents (one in five of those damaged), also go through the tokenizer model and are compared token by token with encoding/xml inside the model's subset (no directive, ASCII names); non-trivial = the document decoded / the real tokenizer accepted; distinct = distinct op lines",
 		Gen:       c02Gen,
 		Exec:      c02Exec,
 		Judge:     c02Judge,
 		Describe:  c02Describe,
+		Fixed:     c02Fixed,
 		QuickN:    3000,
 		ThoroughN: 150000,
 	})
